@@ -355,16 +355,15 @@ example :
     let s := batches exDb 5 (MS.init 0) [[n 0, n 2]]
     s.pool = [(1, [0])] ∧ (rebuild exDb 5 0 s).pool = [(1, [0])] := by decide
 
-/-- FINDING (tampered-block-accepted-dup-last). The body check of statesync's `AddBlock` is the Merkle root
-alone; `CalcMerkleRoot` duplicates the last hash of an odd level, so for a block with transactions
-`[0,1,2]` the list `[0,1,2,2]` (delivered with the genuine header before the honest block) passes — with a
-collision-free hash, i.e. structurally. The stored block then carries a repeated transaction and the
-honest block is refused as "invalid block index". Stripped, shortened, reordered and foreign lists are
-rejected. (Blockchain.AddBlock got the repeated-transaction check in ab64b57; Module.AddBlock has none.) -/
-theorem block_body_dup_last_accepted_witness :
-    acceptsBody [0, 1, 2] [0, 1, 2, 2] = true ∧
+-- Regression example for the defect fixed by 6817c0b (found by this check as tampered-block-accepted-dup-last):
+-- `CalcMerkleRoot` duplicates the last hash of an odd level, so for a block `[0,1,2]` the list `[0,1,2,2]`
+-- has the same Merkle root (first conjunct); statesync's `AddBlock` used to accept it under the genuine
+-- header. With the repeated-transaction check it is rejected, like stripped, shortened, reordered and
+-- foreign lists; only the block's own list passes.
+example :
+    merkleMatches [0, 1, 2] [0, 1, 2, 2] = true ∧ acceptsBody [0, 1, 2] [0, 1, 2, 2] = false ∧
     acceptsBody [0, 1, 2] [] = false ∧ acceptsBody [0, 1, 2] [0, 1] = false ∧
     acceptsBody [0, 1, 2] [0, 2, 1] = false ∧ acceptsBody [0, 1, 2] [0, 1, 2, 1000] = false ∧
-    acceptsBody [0, 1, 2, 3] [0, 1, 2, 3, 3] = false := by decide
+    acceptsBody [0, 1, 2, 3] [0, 1, 2, 3, 3] = false ∧ acceptsBody [0, 1, 2] [0, 1, 2] = true := by decide
 
 end NeoModel.StateSync
